@@ -644,6 +644,12 @@ def symstr_equals(seq, text):
     return r
 
 
+def ensure_concrete_key(i, node=None):
+    """dict operations that compare keys natively: a key the engine only knows symbolically must not silently miss"""
+    if is_sym(i) or isinstance(i, (SymSeq, LoweredSeq, SymChar, SymBytes, Rope, Opaque, SymEnum, HexStr)):
+        raise Unsupported(f"dictionary operation with a symbolic key ({type(i).__name__})", node)
+
+
 def keys_cond(key, ks):
     ks = sorted(ks)
     runs = []
@@ -674,12 +680,15 @@ def do_getitem(I, c, i, st, node=None):
                     if b:
                         out.append(("exc", I.mkexc("KeyError", "symbolic character"), s2))
                 return out
-            if isinstance(i, SymSeq) and not is_sym(i.length):
+            if isinstance(i, (SymSeq, LoweredSeq)):
+                # symbolic string / bytes key (also of symbolic length, also lower-cased): one path per matching concrete key, KeyError otherwise
                 out = []
                 conds = []
                 for k, v in o.items.items():
-                    if isinstance(k, (str, bytes)) and len(k) == i.length:
-                        cond = equal(I, i, k if isinstance(k, bytes) else k.encode("latin-1"), st, node) if i.kind == "bytes" else str_equal(i, k)
+                    if isinstance(k, (str, bytes)) and (is_sym(i.length) or len(k) == i.length):
+                        cond = equal(I, i, k if isinstance(k, bytes) else k.encode("latin-1"), st, node) if i.kind == "bytes" else symstr_equals(i, k)
+                        if cond is False:
+                            continue
                         conds.append(cond)
                         for b, s2 in I.split(cond, st.fork()):
                             if b:
@@ -691,6 +700,8 @@ def do_getitem(I, c, i, st, node=None):
                 return out
             if is_sym(i):
                 return group_lookup(I, o.items, to_z3int(i), st)
+            if isinstance(i, (SymBytes, Rope, Opaque, SymEnum, HexStr)):
+                raise Unsupported(f"dictionary lookup with a key the engine cannot compare ({type(i).__name__})", node)
             try:
                 hash(i)
             except TypeError:
@@ -793,8 +804,7 @@ def do_setitem(I, c, i, v, st, node=None):
             if isinstance(i, (SymSeq, LoweredSeq, SymChar)):
                 st.heap[c.oid] = HAbstract("dict")  # contents unknown from here on; every later read is Unsupported
                 return [("next", None, st)]
-            if is_sym(i):
-                raise Unsupported("store under a symbolic dictionary key", node)
+            ensure_concrete_key(i, node)
             I.hmut(st, c).items[i] = v
             return [("next", None, st)]
         if isinstance(o, HList):
@@ -823,6 +833,7 @@ def do_delitem(I, c, i, st, node=None):
     if isinstance(c, Ref):
         o = I.hget(st, c)
         if isinstance(o, HDict) and not is_sym(i):
+            ensure_concrete_key(i, node)
             if i in o.items:
                 del I.hmut(st, c).items[i]
                 return [("next", None, st)]
@@ -1311,6 +1322,23 @@ def call_method(I, typ, meth, recv, args, kwargs, st, node=None):
                 ax.append((bl <= k) == (ab < (1 << k)))
             st.pc.extend(ax)
             return V(bl, st)
+        if meth == "to_bytes":
+            length = args[0] if args else kwargs.get("length", 1)
+            order = args[1] if len(args) > 1 else kwargs.get("byteorder", "big")
+            signed = kwargs.get("signed", False)
+            if is_sym(length) or not isinstance(order, str) or signed is not False:
+                raise Unsupported("int.to_bytes with symbolic length / signed", node)
+            x = to_z3int(recv)
+            out = []
+            for fits, s2 in I.split(z3.And(x >= 0, x < (1 << (8 * length))), st):
+                if not fits:
+                    out += E(I, "OverflowError", s2, "int too big to convert")
+                    continue
+                items = [z3.simplify((x / (1 << (8 * k))) % 256) for k in range(length)]
+                if order == "big":
+                    items.reverse()
+                out += V(SymBytes(items) if is_sym(recv) else bytes(int(str(i)) for i in items), s2)
+            return out
     if typ == "symlist":
         o = I.hget(st, recv)
         if meth == "append":
@@ -1376,12 +1404,14 @@ def call_method(I, typ, meth, recv, args, kwargs, st, node=None):
             I.hmut(st, recv).items.update(kwargs)
             return V(None, st)
         if meth == "pop":
+            ensure_concrete_key(args[0], node)
             if args[0] in o.items:
                 return V(I.hmut(st, recv).items.pop(args[0]), st)
             if len(args) > 1:
                 return V(args[1], st)
             return E(I, "KeyError", st, args[0])
         if meth == "setdefault":
+            ensure_concrete_key(args[0], node)
             if args[0] in o.items:
                 return V(o.items[args[0]], st)
             I.hmut(st, recv).items[args[0]] = args[1] if len(args) > 1 else None
